@@ -178,6 +178,9 @@ def average(a, axis=None, weights=None, returned=False, keepdims=False):
 
 
 def _chunk_count(x, axis=None, keepdims=None):
+    if axis == ():
+        # 0-d blocks: np.ma.count rejects axis=() when the mask is nomask
+        axis = None
     return np.ma.count(x, axis=axis, keepdims=keepdims)
 
 
